@@ -14,13 +14,14 @@ RULE = ("instants drawn as integer microseconds since the epoch (1970..2100; who
         "month/year/leap-day boundaries), rendered by the generator in every representation: aware datetime "
         "(offsets -12:00..+14:00 incl. :30/:45), naive datetime, ISO strings with Z / numeric offset / no zone "
         "(with and without fraction), epoch int/float (python and numpy scalars), datetime64[s/ms/us/ns], and "
-        "list/tuple/ndarray/DataArray/Series incl. heterogeneous lists; the process runs under several local "
+        "list/tuple/ndarray/DataArray/Series incl. heterogeneous lists; every valid packed time and date integer is enumerated; the process runs under several local "
         "time zones (TZ env) so that naive/local confusion is observable. distinct = (representation, "
         "container, fractional?, TZ); non-trivial = instant not at the epoch and offset/zone != local.")
 ASSUMPTIONS = ["float epoch seconds are exact to 1 microsecond only (float64)", "datetime64 inputs are compared "
                "after flooring to whole seconds, as the property states"]
 REQUIRED_MONITORS = ["C17.to_datetime_utc==instant", "C17.tz-aware-utc", "C17.sequence-elementwise", "C17.none",
-                     "C17.roundtrip:datetime64", "C17.roundtrip:iso", "C17.packed"]
+                     "C17.roundtrip:datetime64", "C17.roundtrip:iso", "C17.packed", "C17.packed:all-valid-integers"]
+REQUIRED_COUNTERS = {"C17.packed_integers_enumerated": 150000}
 REQUIRED_REACH = ["time.py:to_datetime_utc", "time.py:to_datetime64", "time.py:datetime_to_iso_time_string",
                   "time.py:datetime_from_time_and_date_integers"]
 TIMEOUT = {"quick": 300, "thorough": 1800}
@@ -33,6 +34,7 @@ MAX_US = int((datetime(2100, 12, 31, 23, 59, 59, tzinfo=timezone.utc) - EPOCH).t
 def plan(tier, seed):
     shards = []
     reps = 1 if tier == "quick" else 3
+    shards.append({"n": 0, "packed_exhaustive": True, "env": {"VERIF_TZ": "PST8PDT", "TZ": "PST8PDT"}, "tz": "PST8PDT"})
     for r in range(reps):
         for tz in TZS:
             shards.append({"n": N[tier] // (len(TZS) * reps), "env": {"VERIF_TZ": tz, "TZ": tz}, "tz": tz})
@@ -262,9 +264,72 @@ def gen_packed(rng, tz):
     return {"kind": "packed", "fields": [y, mo, d, h, mi, s], "dfmt": dfmt, "tfmt": tfmt, "tz": tz}
 
 
+def packed_exhaustive(ctx, tz):
+    """every valid packed time (hhmmss >= 10000, hhmm 100..2359, hh 0..23) and every valid packed date
+    (yyyymmdd 1970..2100, yymmdd 2000..2099): the packed-integer clause is enumerated completely"""
+    from datetime import date
+    from ocean_science_utilities.tools import time as tt
+    n = 0
+    bad = []
+    for h in range(24):
+        for mi in range(60):
+            for sec in range(60):
+                for tint, exp in ((h * 10000 + mi * 100 + sec, timedelta(hours=h, minutes=mi, seconds=sec)),):
+                    if tint >= 10000:
+                        n += 1
+                        try:
+                            got = tt.time_from_timeint(tint)
+                        except Exception as e:
+                            got = repr(e)
+                        if got != exp and len(bad) < 5:
+                            bad.append({"time_int": tint, "got": repr(got), "expected": repr(exp)})
+            tint = h * 100 + mi
+            if tint >= 100:
+                n += 1
+                got = tt.time_from_timeint(tint)
+                if got != timedelta(hours=h, minutes=mi) and len(bad) < 5:
+                    bad.append({"time_int": tint, "got": repr(got)})
+        n += 1
+        got = tt.time_from_timeint(h)
+        if got != timedelta(hours=h) and len(bad) < 5:
+            bad.append({"time_int": h, "got": repr(got)})
+    d = date(1970, 1, 1)
+    end = date(2100, 12, 31)
+    while d <= end:
+        forms = [d.year * 10000 + d.month * 100 + d.day]
+        if 2000 <= d.year <= 2099:
+            forms.append((d.year - 2000) * 10000 + d.month * 100 + d.day)
+        for dint in forms:
+            n += 1
+            try:
+                got = tt.date_from_dateint(dint)
+                ok = (got == datetime(d.year, d.month, d.day, tzinfo=timezone.utc)) and is_utc(got)
+            except Exception as e:
+                got, ok = repr(e), False
+            if not ok and len(bad) < 5:
+                bad.append({"date_int": dint, "got": repr(got), "expected": d.isoformat()})
+        d += timedelta(days=1)
+    ctx.count("C17.packed_integers_enumerated", n)
+    ctx.case(("packed-exhaustive", tz), nontrivial=True, sample={"packed_integers_enumerated": n})
+    ctx.check("C17.packed:all-valid-integers", not bad, {"kind": "packed-exhaustive", "tz": tz}, {"first_failures": bad},
+              key="C17:packed:exhaustive")
+    # combined decoding on the boundaries of the three time encodings
+    for dint, tint, exp in ((20221109, 100, datetime(2022, 11, 9, 1, 0, tzinfo=timezone.utc)),
+                            (20221109, 10000, datetime(2022, 11, 9, 1, 0, 0, tzinfo=timezone.utc)),
+                            (221109, 99, None), (20000229, 235959, datetime(2000, 2, 29, 23, 59, 59, tzinfo=timezone.utc)),
+                            (101, 23, datetime(2000, 1, 1, 23, tzinfo=timezone.utc))):
+        if exp is None:
+            continue
+        got = tt.datetime_from_time_and_date_integers(dint, tint)
+        ctx.check("C17.packed", same(got, exp, 0) and is_utc(got), {"kind": "packed-boundary", "date_int": dint, "time_int": tint},
+                  {"got": repr(got), "expected": exp.isoformat()}, key="C17:packed:boundary")
+
+
 def judge(ctx, case):
     from ocean_science_utilities.tools import time as tt
     k = case["kind"]
+    if k in ("packed-exhaustive", "packed-boundary"):
+        return packed_exhaustive(ctx, case.get("tz", "UTC"))
     if k == "scalar":
         judge_scalar(ctx, case)
     elif k == "seq":
@@ -281,6 +346,9 @@ def run_shard(ctx, shard):
     _time.tzset()
     rng = ctx.rng()
     tz = shard["tz"]
+    if shard.get("packed_exhaustive"):
+        packed_exhaustive(ctx, tz)
+        return
     judge(ctx, {"kind": "none"})
     for i in range(shard["n"]):
         sub = int(rng.integers(0, 2 ** 62))
